@@ -168,6 +168,19 @@ def r03c(ck, fb):
     for s in b.calls(r'std::vec::Vec::<T, A>::(truncate|pop|split_off|drain|remove|clear)$'):
         if util.recv_fields(b, s)[-1:] == ['logs']:
             muts.append((s.bb, None))
+    # every listed file is looked at: the loop that hands StripLogToIndex to the per-file actors has no early exit (logs is ordered oldest
+    # first, so the files that must be cut come AFTER the ones that lie entirely below end_index)
+    ck.rule('R03i', 'RaftLogManager::strip_log_to_index looks at every listed file: the loop that hands StripLogToIndex to the per-file actors has '
+                    'no early exit (break/return) - logs is ordered oldest first and the files to cut come after those entirely below end_index')
+    st = util.sends(b, r'RaftLogRequest$', 'StripLogToIndex')
+    ck.require(len(st) >= 1, 'R03i', 'strip_log_to_index:sends-strip', b.where(), 'StripLogToIndex is not sent to the per-file actors')
+    for (s0, m0, v0, a0) in st:
+        ex = util.loop_early_exits(b, s0.bb)
+        ck.require(ex is not None and not ex, 'R03i', 'strip_log_to_index:scans-every-file', s0.where(),
+                   'the scan over RaftLogManager.logs stops at the first file that lies entirely below end_index (break): logs is ordered oldest first, so '
+                   'with an earlier closed file still listed the file that holds end_index is never reached, nothing is removed, and the next append at '
+                   'end_index is refused by the per-file index guard' if ex else 'StripLogToIndex is not sent from a loop over the listed files',
+                   'no early exit')
     sv = util.sends(b, r'RaftIndexRequest$', 'SaveLogs')
     ok = all(any(cfg.dominates_blocks(b, {s.bb}, bb) or cfg.must_pass_before_return(b, bb, {s.bb}) for (s, _, _, _) in sv) for (bb, _) in muts)
     ck.require(ok, 'R03c', '%s:assign' % b.name, b.where(muts[0][0]) if muts else b.where(),
